@@ -40,7 +40,8 @@ var dateHeaders = []string{
 func runReceived(c *fw.Ctx, idx int, r *fw.Rand) {
 	backend := []string{"mem", "file"}[idx%2]
 	spec := genPop(r, 1, 8, 5, false)
-	st, env, err := newStore(c, backend)
+	sc := pickConf(c, "received", idx, backend)
+	st, env, err := newStore(c, backend, sc)
 	if err != nil {
 		panic(err)
 	}
@@ -74,7 +75,7 @@ func runReceived(c *fw.Ctx, idx int, r *fw.Rand) {
 		}
 		received = append(received, rcv{rc.Mailbox, subj, h})
 	}
-	detail := map[string]any{"backend": backend, "period": spec.Period.String(), "population": spec, "received": received}
+	detail := map[string]any{"backend": backend, "store_conf": sc, "period": spec.Period.String(), "population": spec, "received": received}
 	rs := storage.NewRetentionScanner(config.Storage{RetentionPeriod: spec.Period, RetentionSleep: 0}, st)
 	if _, ok := scanOnce(c, rs, context.Background(), "received"); !ok {
 		return
@@ -138,7 +139,8 @@ func runCancel0(c *fw.Ctx, idx int, r *fw.Rand) {
 		return
 	}
 	k := r.Range(1, nBoxes-60)
-	visits, _, _, ok := cancelRun(c, backend, &spec, "visit", k, nBoxes, 0)
+	sc := pickConf(c, "cancel0", idx, backend)
+	visits, _, _, ok := cancelRun(c, backend, sc, &spec, "visit", k, nBoxes, 0)
 	if !ok {
 		return
 	}
